@@ -95,14 +95,9 @@ EXPORT bool _strispassword_s_chk(const char *dest, rsize_t dmax,
     cnt_all = cnt_lowercase = cnt_uppercase = 0;
     cnt_numbers = cnt_specials = 0;
 
-    while (*dest) {
-
-        if (unlikely(dmax == 0)) {
-            invoke_safe_str_constraint_handler(
-                "strispassword_s: dest is unterminated", (void *)dest,
-                ESUNTERM);
-            return (false);
-        }
+    /* at most dmax characters are looked at, as by the other stris*_s
+       functions: dest[dmax] is not the caller's to read */
+    while (dmax && *dest) {
         dmax--;
 
         cnt_all++;
